@@ -11,6 +11,7 @@ import PasfmtModel.Proofs.LexTotal
 import PasfmtModel.Proofs.LexBoundaries
 import PasfmtModel.Proofs.LexLocal6
 import PasfmtModel.Proofs.LexSpecs
+import PasfmtModel.Proofs.LexSpecs2
 
 namespace Pasfmt.C13
 
@@ -330,5 +331,281 @@ theorem block_comment_token_spec (simd : Bool) (st : LexState) (inp : Bytes) (r 
         some (some (countLeadingWs inp, countLeadingWs inp + res.1, .rComment res.2,
           stepState st (.rComment res.2) st.inAsm))) :=
   ⟨fun hd => lexOne_braceComment simd st inp r hd hnd, fun hd => lexOne_parenComment simd st inp r hd hnd⟩
+
+/-! ### Compiler directives, ampersand tokens, assembler mode (`Proofs/LexSpecs2.lean`)
+
+  As above, every statement is about the model's own function and holds for every byte string.
+  Where the model (= the Rust code) departs from the naive lexical rule, the doc comment says so. -/
+
+/-- **Directive names.**  The name of a directive is the maximal run of name bytes after `{$` / `(*$`;
+    a name byte is an ASCII letter, a digit or `_` (so digits and `_` belong to the name: `{$if1}` and
+    `{$if_}` are *not* `$if` directives; a non-ASCII byte ends the name). -/
+theorem directive_name_spec (l : Bytes) :
+    LongestPrefixIn (AllBytes isDirectiveNameByte) l (conditionalDirectiveType l).1 ∧
+    l.take (conditionalDirectiveType l).1 = directiveName l ∧
+    ∀ b, isDirectiveNameByte b = true ↔
+      (0x41 ≤ b ∧ b ≤ 0x5A) ∨ (0x61 ≤ b ∧ b ≤ 0x7A) ∨ (0x30 ≤ b ∧ b ≤ 0x39) ∨ b = 0x5F :=
+  ⟨countWhile_longest isDirectiveNameByte l, take_countWhile isDirectiveNameByte l, isDirectiveNameByte_iff⟩
+
+/-- **Which directives are conditional directives, and of which kind.**  The kind is looked up in
+    `conditionalDirectiveTable` (`if`, `ifdef`, `ifndef`, `ifopt`, `elseif`, `else`, `ifend`, `endif`)
+    with the lower-cased name: it is `some k` exactly when the name is, in any ASCII letter case, the
+    spelling of the table entry of `k`; every other name (`{$R+}`, `{$region}`, `{$define X}`, the
+    empty name of `{$}` …) gives `none`, i.e. a plain compiler-directive token (`dirKind`). -/
+theorem directive_kind_spec (l : Bytes) :
+    (conditionalDirectiveType l).2 = directiveKindSpec (directiveName l) ∧
+    (∀ name k, directiveKindSpec name = some k ↔
+      ∃ w, (w, k) ∈ conditionalDirectiveTable ∧ eqIgnoreCase name w = true) ∧
+    (∀ name, directiveKindSpec (asciiLower name) = directiveKindSpec name ∧
+      directiveKindSpec (asciiUpper name) = directiveKindSpec name) ∧
+    (∀ k, dirKind (some k) = .rConditionalDirective k) ∧ dirKind none = .rCompilerDirective :=
+  ⟨conditionalDirectiveType_snd l, directiveKindSpec_some_iff, directiveKindSpec_case, fun _ => rfl, rfl⟩
+
+-- `IfDef X} y` → name `IfDef` (5 bytes), kind ifdef;  `if1 X}` / `if_}` → no conditional directive
+example : conditionalDirectiveType [73, 102, 68, 101, 102, 32, 88, 125, 32, 121] = (5, some .dIfdef) := by decide +kernel
+example : conditionalDirectiveType [105, 102, 49, 32, 88, 125] = (3, none) := by decide +kernel
+example : conditionalDirectiveType [105, 102, 95, 125] = (3, none) := by decide +kernel
+
+/-- **Plain directives** (every name except `if` / `elseif`, which are recognised by
+    `isExprName`): the token ends right after the *first* closer (`}` resp. `*)`) in the text after
+    `{$` / `(*$` — nothing is nested, a `}` inside a string or a `//` comment closes the directive —
+    and if there is none it runs to the end of the text minus the trailing blanks (`tokLen - trim`);
+    the kind is the one of `directive_kind_spec`.  `l` = text after the opener, `openLen` = 2 / 3. -/
+theorem plain_directive_spec (trim : Nat) (kind : BlockCommentKind) (openLen tokLen : Nat) (l : Bytes)
+    (hx : isExprName (directiveName l) = false) (x : Nat × Option ConditionalDirectiveKind) :
+    compilerDirective trim kind openLen tokLen l = some x ↔ PlainDirectiveSpec kind trim openLen tokLen l x :=
+  compilerDirective_plain_iff trim kind openLen tokLen l hx x
+
+/-- the names with an expression body are exactly `if` and `elseif`, in any letter case -/
+theorem expr_directive_names (name : Bytes) : isExprName name = true ↔
+    eqIgnoreCase name [0x69, 0x66] = true ∨ eqIgnoreCase name [0x65, 0x6C, 0x73, 0x65, 0x69, 0x66] = true :=
+  isExprName_iff name
+
+-- `{$ifdef X {a} b}  `: ends after the first `}` (12 + 2 bytes);  `{$ifdef X {a  ` (2 trailing blanks): 14 bytes
+example : compilerDirective 0 .brace 2 18 [105, 102, 100, 101, 102, 32, 88, 32, 123, 97, 125, 32, 98, 125, 32, 32] =
+    some (13, some .dIfdef) := by decide +kernel
+example : compilerDirective 2 .brace 2 16 [105, 102, 100, 101, 102, 32, 88, 32, 123, 97, 32, 32] =
+    some (14, some .dIfdef) := by decide +kernel
+
+/-- **The expression scanner of `{$if …}` / `{$elseif …}`** (`find_directive_expr_end`) computes
+    exactly the relation `DirEnd … true` (given more fuel than bytes, which `compiler_directive`
+    always supplies: `directiveFuel l = 2·len + 2`).  Reading of `DirEnd trim kind true l res`, `l` =
+    the text after the directive name, `res` = offset just after the closer or `none`:
+    the text is consumed from left to right;
+    * at the closer of the directive's *own* bracket kind (`}` for `{$if`, `*)` for `(*$if`) it ends —
+      the other kind's closer is an ordinary byte;
+    * a nested directive `{$…}` or `(*$…*)` (either bracket kind, any name) is skipped up to its own
+      end, found by the same rules: recursively with this relation for a nested `$if`/`$elseif` (any
+      depth), at its first closer otherwise; an unterminated nested directive makes the whole
+      directive unterminated;
+    * a block comment `{…}` / `(*…*)` is skipped up to its first closer; if it is unterminated, the
+      scan jumps to the start of the trailing blanks of the text (and then finds nothing);
+    * a string that starts with `'` is skipped as the whole text literal `text_literal` finds there
+      (further segments, `#` codes, multi-line literals); an *unterminated* string is skipped up to
+      the end of its line, so a `}` after a stray quote on the same line does not close the directive;
+      a `#` code outside a string is not special;
+    * a `//` comment is skipped up to the end of the line (so `{$if X // }` does not end at that `}`);
+    * any other byte is skipped;
+    * at the end of the text the directive is unterminated (`none`).
+    The relation is deterministic and total (consequence of the equivalence). -/
+theorem directive_expr_end_spec (trim fuel : Nat) (kind : BlockCommentKind) (l : Bytes) (res : Option Nat)
+    (hf : l.length < fuel) :
+    findDirectiveExprEnd trim fuel kind l = some res ↔ DirEnd trim kind true l res :=
+  dirEnd_iff trim fuel kind true l res hf
+
+/-- the same for the end of any directive body (`expr = false`: first closer) -/
+theorem directive_end_spec (trim fuel : Nat) (kind : BlockCommentKind) (expr : Bool) (l : Bytes) (res : Option Nat)
+    (hf : l.length < fuel) :
+    (if expr then findDirectiveExprEnd trim fuel kind l else some (findBlockCommentEnd kind l)) = some res ↔
+      DirEnd trim kind expr l res :=
+  dirEnd_iff trim fuel kind expr l res hf
+
+/-- a terminated directive always ends right after a closer of its own bracket kind -/
+theorem directive_ends_with_closer (trim : Nat) (kind : BlockCommentKind) (expr : Bool) (l : Bytes) (e : Nat)
+    (h : DirEnd trim kind expr l (some e)) : ∃ i, e = i + (closer kind).length ∧ OccursAt (closer kind) l i :=
+  dirEnd_ends_with_closer trim kind expr l _ h e rfl
+
+/-- **The whole directive token**: `compiler_directive` returns exactly the pair allowed by
+    `DirectiveSpec` (name, kind from the table, end from `DirEnd` on the text after the name, or the
+    end of the text minus the trailing blanks when unterminated); such a pair always exists. -/
+theorem directive_spec (trim : Nat) (kind : BlockCommentKind) (openLen tokLen : Nat) (l : Bytes) :
+    (∀ x, compilerDirective trim kind openLen tokLen l = some x ↔ DirectiveSpec kind trim openLen tokLen l x) ∧
+    ∃ x, DirectiveSpec kind trim openLen tokLen l x :=
+  ⟨compilerDirective_iff trim kind openLen tokLen l, directiveSpec_total trim kind openLen tokLen l⟩
+
+/-- a token starting with `{$` resp. `(*$` is the directive token of `DirectiveSpec` (in every scanner
+    state; it never changes the assembler mode) -/
+theorem directive_token_spec (simd : Bool) (st : LexState) (inp : Bytes) (r : Bytes)
+    (x : Nat × Option ConditionalDirectiveKind) :
+    (inp.drop (countLeadingWs inp) = 0x7B :: 0x24 :: r →
+      DirectiveSpec .brace (countTrailingWs inp) 2 (r.length + 2) r x →
+      lexOne simd st inp =
+        some (some (countLeadingWs inp, countLeadingWs inp + x.1, dirKind x.2, stepState st (dirKind x.2) st.inAsm))) ∧
+    (inp.drop (countLeadingWs inp) = 0x28 :: 0x2A :: 0x24 :: r →
+      DirectiveSpec .parenStar (countTrailingWs inp) 3 (r.length + 3) r x →
+      lexOne simd st inp =
+        some (some (countLeadingWs inp, countLeadingWs inp + x.1, dirKind x.2, stepState st (dirKind x.2) st.inAsm))) :=
+  ⟨lexOne_braceDirective simd st inp r x, lexOne_parenDirective simd st inp r x⟩
+
+-- `{$if X {a} 'b}' // c}` LF ` {$ifdef D}{$if E {}}{$endif} } z`: the comment, the string, the line
+-- comment and the three nested directives (one of them a nested `$if` with a comment) are skipped;
+-- the directive is closed by the last `}` (53 bytes)
+example : compilerDirective 0 .brace 2 55 [105, 102, 32, 88, 32, 123, 97, 125, 32, 39, 98, 125, 39, 32, 47, 47, 32,
+    99, 125, 10, 32, 123, 36, 105, 102, 100, 101, 102, 32, 68, 125, 123, 36, 105, 102, 32, 69, 32, 123, 125, 125, 123,
+    36, 101, 110, 100, 105, 102, 125, 32, 125, 32, 122] = some (53, some .dIf) := by decide +kernel
+example : DirEnd 0 .brace true [32, 88, 32, 123, 97, 125, 32, 39, 98, 125, 39, 32, 47, 47, 32,
+    99, 125, 10, 32, 123, 36, 105, 102, 100, 101, 102, 32, 68, 125, 123, 36, 105, 102, 32, 69, 32, 123, 125, 125, 123,
+    36, 101, 110, 100, 105, 102, 125, 32, 125, 32, 122] (some 49) :=
+  (directive_expr_end_spec 0 60 .brace _ _ (by decide)).1 (by decide +kernel)
+-- `(*$IF a} (*)*) *) b`: `}` is an ordinary byte, `(*)*)` is a nested comment, then `*)` closes (17 bytes)
+example : compilerDirective 0 .parenStar 3 19 [73, 70, 32, 97, 125, 32, 40, 42, 41, 42, 41, 32, 42, 41, 32, 98] =
+    some (17, some .dIf) := by decide +kernel
+-- ` X 'a} ` LF `} z`: the unterminated string hides the first `}`;  ` X {$ifdef D z`: unterminated nested directive
+example : findDirectiveExprEnd 0 20 .brace [32, 88, 32, 39, 97, 125, 32, 10, 125, 32, 122] = some (some 9) := by
+  decide +kernel
+example : findDirectiveExprEnd 0 20 .brace [32, 88, 32, 123, 36, 105, 102, 100, 101, 102, 32, 68, 32, 122] = some none := by
+  decide +kernel
+
+/-- **Ampersand tokens.**  For a token that starts with `&` (`r` = the text after it) the result
+    `(token length, kind)` is the unique pair allowed by `AmpersandSpec`: *all* directly following
+    ampersands belong to the token (`&&&x` is one token), and then
+    * `$` + hex digits/`_` → hex literal;  `%` + binary digits/`_` → binary literal;  a digit + the
+      decimal tail (fraction, exponent) → decimal literal;
+    * an ASCII letter or `_` + the identifier run → identifier — never a keyword (`&begin`, `&asm`,
+      `&end` are identifiers);
+    * a non-ASCII byte that does not start U+3000 + the continuation bytes after it + the identifier
+      run → identifier;
+    * anything else (end of text, blank, U+3000, operator, quote, `{`, …) → the ampersands alone form
+      an "unknown" token. -/
+theorem ampersand_spec (r : Bytes) (x : Nat × RawKind) : AmpersandSpec r x ↔ x = ampersandTok r :=
+  ⟨ampersandTok_only r x, fun h => h ▸ ampersandTok_sat r⟩
+
+/-- the follower classes alone -/
+theorem ampersand_follower_spec (l : Bytes) (x : Nat × RawKind) : AmpFollower l x ↔ x = ampFollow l :=
+  ⟨ampFollow_only l x, fun h => h ▸ ampFollow_sat l⟩
+
+/-- a token starting with `&` has the length and kind of `ampersandTok` (in every scanner state, with
+    either identifier routine; the assembler mode is neither entered nor left) -/
+theorem ampersand_token_spec (simd : Bool) (st : LexState) (inp : Bytes) (r : Bytes)
+    (hd : inp.drop (countLeadingWs inp) = 0x26 :: r) :
+    lexOne simd st inp =
+      some (some (countLeadingWs inp, countLeadingWs inp + (ampersandTok r).1, (ampersandTok r).2,
+        stepState st (ampersandTok r).2 st.inAsm)) :=
+  lexOne_ampersand simd st inp r hd
+
+-- `&&begin x` → identifier, 7 bytes;  `&1.5e3+` → decimal, 6;  `&$1Fg` → hex, 4;  `&& +` → unknown, 2;
+-- `&é x` → identifier, 3;  `&` U+3000 → unknown, 1
+example : ampersandTok [38, 98, 101, 103, 105, 110, 32, 120] = (7, .rIdentifier) := by decide +kernel
+example : ampersandTok [49, 46, 53, 101, 51, 43] = (6, .rNumberLiteral .nDecimal) := by decide +kernel
+example : ampersandTok [36, 49, 70, 103] = (4, .rNumberLiteral .nHex) := by decide +kernel
+example : ampersandTok [38, 32, 43] = (2, .rUnknown) := by decide +kernel
+example : ampersandTok [195, 169, 32, 120] = (3, .rIdentifier) := by decide +kernel
+example : ampersandTok [227, 128, 128] = (1, .rUnknown) := by decide +kernel
+
+/-- **Assembler mode** is a function of the previous mode and the kind of the token just scanned: it
+    is entered exactly by a token of kind keyword `asm` and left exactly by a token of kind keyword
+    `end`.  Outside assembler mode such an `asm` token is a word (ASCII letter + identifier run)
+    spelled `asm` in any letter case that does not directly follow a `.` (so `x.asm` and `&asm` do not
+    enter it).  Inside, an `end` token is a word spelled `end` in any letter case — the preceding
+    token is *not* consulted (`.end` leaves assembler mode; `&end`, `@end` do not). -/
+theorem asm_mode_spec (simd : Bool) (st : LexState) (inp : Bytes) (ws e : Nat) (k : RawKind) (st' : LexState)
+    (h : lexOne simd st inp = some (some (ws, e, k, st'))) :
+    st'.inAsm = (if st.inAsm then k != .rKeyword .kEnd else k == .rKeyword .kAsm) ∧
+    (st.inAsm = false →
+      (st'.inAsm = true ↔
+        ∃ b r, inp.drop (countLeadingWs inp) = b :: r ∧ isAlpha b = true ∧ st.prevReal ≠ some (.rOp .oDot) ∧
+          eqIgnoreCase ((b :: r).take (1 + identLen r)) asmWord = true)) ∧
+    (st.inAsm = true →
+      (st'.inAsm = false ↔
+        ∃ b r, inp.drop (countLeadingWs inp) = b :: r ∧ isAlpha b = true ∧
+          eqIgnoreCase ((b :: r).take (1 + identLen r)) endWord = true)) :=
+  ⟨lexOne_mode simd st inp ws e k st' h,
+   fun hasm => lexOne_enters_asm simd st inp ws e k st' hasm h,
+   fun hasm => lexOne_leaves_asm simd st inp ws e k st' hasm h⟩
+
+/-- the initial state is outside assembler mode -/
+theorem asm_mode_initial : LexState.init.inAsm = false := rfl
+
+/-- **Words in assembler mode**: a token that starts with an ASCII letter is the letter plus the
+    identifier run; it is the keyword `end` or `asm` if spelled so (any letter case), otherwise an
+    identifier — no other keyword exists in assembler mode (`mov`, `begin`, `and` are identifiers) -/
+theorem asm_word_token_spec (simd : Bool) (st : LexState) (inp : Bytes) (b : UInt8) (r : Bytes)
+    (hasm : st.inAsm = true) (hd : inp.drop (countLeadingWs inp) = b :: r) (hb : isAlpha b = true) :
+    let w := (b :: r).take (1 + identLen r)
+    lexOne simd st inp =
+      some (some (countLeadingWs inp, countLeadingWs inp + (1 + identLen r), asmWordKind w,
+        stepState st (asmWordKind w) (!eqIgnoreCase w endWord))) :=
+  lexOne_asmWord simd st inp b r hasm hd hb
+
+/-- **Assembler labels**: in assembler mode a token that starts with `@` is `@` plus the longest run
+    of ASCII letters, digits, `_` and `@` (`@@1`, `@loop`); non-ASCII bytes do not belong to it
+    (unlike identifiers); kind identifier -/
+theorem asm_label_spec (simd : Bool) (st : LexState) (inp : Bytes) (r : Bytes)
+    (hasm : st.inAsm = true) (hd : inp.drop (countLeadingWs inp) = 0x40 :: r) :
+    lexOne simd st inp =
+      some (some (countLeadingWs inp, countLeadingWs inp + (1 + countWhile isAsmLabelByte r), .rIdentifier,
+        stepState st .rIdentifier true)) ∧
+    LongestPrefixIn (AllBytes isAsmLabelByte) r (countWhile isAsmLabelByte r) ∧
+    ∀ b, isAsmLabelByte b = true ↔
+      (0x41 ≤ b ∧ b ≤ 0x5A) ∨ (0x61 ≤ b ∧ b ≤ 0x7A) ∨ (0x30 ≤ b ∧ b ≤ 0x39) ∨ b = 0x5F ∨ b = 0x40 :=
+  ⟨lexOne_asmLabel simd st inp r hasm hd, countWhile_longest isAsmLabelByte r, isAsmLabelByte_iff⟩
+
+/-- **Assembler numbers**: after the first digit comes the longest run of hex digits and `_`
+    (whatever the base; no fraction, no exponent: `1e5` is one decimal token, `1.5` stops after `1`);
+    a directly following `o`/`O` resp. `h`/`H` is consumed and makes the literal octal resp.
+    hexadecimal; otherwise the literal is binary if the last byte of the run is `b`/`B`, else
+    decimal.  The result is the unique pair allowed by `AsmNumberSpec`. -/
+theorem asm_number_spec (first : UInt8) (r : Bytes) (x : Nat × NumberLiteralKind) :
+    AsmNumberSpec first r x ↔ x = asmNumberRest first r :=
+  ⟨fun h => AsmNumberSpec.unique h (asmNumberRest_sat first r), fun h => h ▸ asmNumberRest_sat first r⟩
+
+/-- in assembler mode a token that starts with a digit is such a number -/
+theorem asm_number_token_spec (simd : Bool) (st : LexState) (inp : Bytes) (b : UInt8) (r : Bytes)
+    (hasm : st.inAsm = true) (hd : inp.drop (countLeadingWs inp) = b :: r) (hb : isDigit b = true) :
+    lexOne simd st inp =
+      some (some (countLeadingWs inp, countLeadingWs inp + (1 + (asmNumberRest b r).1),
+        .rNumberLiteral (asmNumberRest b r).2, stepState st (.rNumberLiteral (asmNumberRest b r).2) true)) :=
+  lexOne_asmNumber simd st inp b r hasm hd hb
+
+/-- **Assembler text literals `"…"`**: the body is a sequence of escape pairs (`\` + any byte — also
+    `"`, CR or LF, so an escaped line break does not end the literal) and of bytes other than `\`, `"`,
+    CR, LF (`AsmStrBody`); the literal is closed by the first `"` outside an escape pair (kind asm);
+    it is unterminated if CR/LF (not consumed) or the end of the text comes first, or if the text
+    ends with a lone `\` (consumed).  The result is the unique pair allowed by `AsmTextSpec`. -/
+theorem asm_text_literal_spec (r : Bytes) (x : Nat × TextLiteralKind) :
+    AsmTextSpec r x ↔ x = asmTextLiteralRest r :=
+  ⟨asmTextLiteralRest_only r x, fun h => h ▸ asmTextLiteralRest_sat r⟩
+
+/-- in assembler mode a token that starts with `"` is such a literal (`'…'` and `#…` literals, `$…`
+    numbers, comments and directives are scanned as outside assembler mode: `text_token_spec`,
+    `hex_binary_token_spec`, … hold in every scanner state) -/
+theorem asm_text_token_spec (simd : Bool) (st : LexState) (inp : Bytes) (r : Bytes)
+    (hasm : st.inAsm = true) (hd : inp.drop (countLeadingWs inp) = 0x22 :: r) :
+    lexOne simd st inp =
+      some (some (countLeadingWs inp, countLeadingWs inp + (1 + (asmTextLiteralRest r).1),
+        .rTextLiteral (asmTextLiteralRest r).2, stepState st (.rTextLiteral (asmTextLiteralRest r).2) true)) :=
+  lexOne_asmText simd st inp r hasm hd
+
+-- `x.asm asm mov @@1: 0FFh 12 101b 17o 1e5 "a\"b" &end .end end`: `.asm` does not enter assembler
+-- mode, `asm` does; labels, numbers and the `"…"` literal; `&end` does not leave it, `.end` does; the
+-- last `end` is scanned outside assembler mode
+example : (lex [120, 46, 97, 115, 109, 32, 97, 115, 109, 32, 109, 111, 118, 32, 64, 64, 49, 58, 32, 48, 70, 70, 104,
+    32, 49, 50, 32, 49, 48, 49, 98, 32, 49, 55, 111, 32, 49, 101, 53, 32, 34, 97, 92, 34, 98, 34, 32, 38, 101, 110,
+    100, 32, 46, 101, 110, 100, 32, 101, 110, 100]).map (·.map (fun t => (t.content.length, t.kind))) =
+    some [(1, .rIdentifier), (1, .rOp .oDot), (3, .rIdentifier), (3, .rKeyword .kAsm), (3, .rIdentifier),
+      (3, .rIdentifier), (1, .rOp .oColon), (4, .rNumberLiteral .nHex), (2, .rNumberLiteral .nDecimal),
+      (4, .rNumberLiteral .nBinary), (3, .rNumberLiteral .nOctal), (3, .rNumberLiteral .nDecimal),
+      (6, .rTextLiteral .tAsm), (4, .rIdentifier), (1, .rOp .oDot), (3, .rKeyword .kEnd), (3, .rKeyword .kEnd),
+      (0, .rEof)] := by decide +kernel
+-- after the first digit: `FFh ` → 3, hex;  `01b ` → 3, binary;  `7o+` → 2, octal;  `2_ ` → 2, decimal;  `.5` → 0, decimal
+example : asmNumberRest 0x30 [70, 70, 104, 32] = (3, .nHex) ∧ asmNumberRest 0x31 [48, 49, 98, 32] = (3, .nBinary) ∧
+    asmNumberRest 0x31 [55, 111, 43] = (2, .nOctal) ∧ asmNumberRest 0x31 [50, 95, 32] = (2, .nDecimal) ∧
+    asmNumberRest 0x31 [46, 53] = (0, .nDecimal) := by decide
+-- after the opening quote: `a\"b" x` → 5, closed;  `a\` LF `b" x` → 5, closed (escaped line feed);
+-- `ab` LF `"` → 2, unterminated;  `ab\` → 3, unterminated
+example : asmTextLiteralRest [97, 92, 34, 98, 34, 32, 120] = (5, .tAsm) ∧
+    asmTextLiteralRest [97, 92, 10, 98, 34, 32, 120] = (5, .tAsm) ∧
+    asmTextLiteralRest [97, 98, 10, 34] = (2, .tUnterminated) ∧
+    asmTextLiteralRest [97, 98, 92] = (3, .tUnterminated) := by decide
 
 end Pasfmt.C13
